@@ -283,7 +283,7 @@ func init() {
 	}
 
 	suites["C07-fallback"] = func() result {
-		r := result{Name: "C07-fallback", Bound: "real SearchUniversal on 300 seeded random databases x 12 queries (plain, misspelt, action words, unknown words) x thresholds {0, -30, -150, -400, 40}, NLP on and off: typo tolerance on versus off, and fallback results against an independent fuzzy.Find score"}
+		r := result{Name: "C07-fallback", Bound: "real SearchUniversal on 300 seeded random databases x 12 queries (plain, misspelt, action words, unknown words) x thresholds {0, -30, -150, -400, 40}, NLP on and off: typo tolerance on versus off, and fallback results (membership, threshold, best-first order) against an independent fuzzy.Find score"}
 		rng := rand.New(rand.NewSource(7))
 		var bad []string
 		fail := func(f string, a ...interface{}) {
@@ -338,7 +338,8 @@ func init() {
 						for _, m := range fuzzy.Find(strings.TrimSpace(q), targets) {
 							ref[m.Index] = m.Score
 						}
-						for _, res := range on {
+						prevSc, prevCmd := 0, ""
+						for ri, res := range on {
 							idx := -1
 							for i := range db.Commands {
 								if &db.Commands[i] == res.Command {
@@ -350,6 +351,13 @@ func init() {
 								fail("query %q threshold %d: fallback result %q is not a fuzzy match of the query", q, th, res.Command.Command)
 							} else if th != 0 && sc < th {
 								fail("query %q threshold %d: fallback result %q has match quality %d", q, th, res.Command.Command, sc)
+							}
+							// best match first: by the matcher's own quality, not by the displayed (clamped) score
+							if ok && ri > 0 && sc > prevSc {
+								fail("query %q threshold %d nlp=%v: fallback result %q (match quality %d) is listed after %q (match quality %d)", q, th, useNLP, res.Command.Command, sc, prevCmd, prevSc)
+							}
+							if ok {
+								prevSc, prevCmd = sc, res.Command.Command
 							}
 						}
 					}
